@@ -27,7 +27,7 @@ def table(letters):
 
 put("FOURTH_WAVE_ENTRIES", rd("_fourth_wave_entries.md"))
 put("FOURTH_WAVE_TABLES", "**Round 3 (`e`/`f`)** — \"fi\" = caught with a concrete failing input, \"corr\" = proof obligation / correspondence only, "
-    "bold = another property's check (cross-catch).\n\n" + table("ef") + "\n**Round 4 (`g`/`h`)**\n\n" + table("gh") + "\n" + rd("_fourth_wave_tables_tail.md"))
+    "bold = another property's check (cross-catch).\n\n" + table("ef") + "\n**Round 4 (`g`/`h`)**\n\n" + table("gh") + "\n" + rd("_fourth_wave_tables_tail.md") + "\n**Round 5 (`i`/`j`) — a last measurement round on eight properties**\n\n" + table("ij") + "\n" + rd("_fourth_wave_round5.md"))
 put("FOURTH_WAVE_ALARMS", rd("_fourth_wave_alarms.md") + "\n" + rd("_fourth_wave_tb.md") + "\n" + rd("_fourth_wave_numbers.md"))
 open(p, "w").write(s)
 print("DESIGN.md section 14 regenerated")
